@@ -20,6 +20,7 @@ QUICK = [
     ("S2r", HOLD_DESC, 1, "FULLND"),
     ("S5", DROP_ASC, 1, "FULLND"),
     ("S0", DROP_ASC, 3, "FULLND"),
+    ("S1", DROP_ASC, 3, "IDGC"),
 ]
 THOROUGH = [
     ("S2", DROP_ASC, 2, "FULLND"),
@@ -32,6 +33,8 @@ THOROUGH = [
     ("S1", HOLD_DESC, 3, "STRUCT"),
     ("S5", DROP_ASC, 2, "EDIT"),
     ("S5", HOLD_DESC, 2, "FULLND"),
+    ("S1", DROP_ASC, 4, "IDGC"),
+    ("S2", DROP_DESC, 3, "IDGC"),
 ]
 
 P = TreeProp(
